@@ -121,14 +121,73 @@ theorem C03_second_pass_collects_all (s : Sys) (cs : CycState) (hc : s.cyc = som
   simp only [Prod.mk.injEq] at e4
   exact ⟨cs', e1, e2, e3, e4.1, e4.2⟩
 
-/-- what the cycle then does with the two buffers: the batch is the deferred commits, the first
-    pass, and the second pass **without its commits**; those become the deferred commits of the
-    next cycle (when a reporter is installed) -/
+/-- what the cycle then does with the two buffers: the batch is the deferred commits, what the
+    previous cycle carried over, the first pass, and of the second pass what `splitSecond` lets
+    through — never its commits; those become the deferred commits of the next cycle (when a
+    reporter is installed), and what `splitSecond` holds back becomes the next cycle's `carried` -/
 theorem C03_finish_defers_second_pass_commits (s : Sys) (kept : List (Nat × Ring Cmd)) (buf buf2 : List Cmd) :
     (s.finishCycle kept buf buf2).1.deferred = (if s.coll.hasReporter then commitsOf buf2 else []) ∧
-    (s.finishCycle kept buf buf2).2 =
-      (cycleProcess id s.coll (s.deferred.map Cmd.commit ++ buf ++ buf2.filter (fun c => !c.isCommit))).2 := by
-  simp [Sys.finishCycle]
+    (s.finishCycle kept buf buf2).1.carried = (if s.coll.hasReporter then (s.cycleSplit buf buf2).2 else []) ∧
+    (s.finishCycle kept buf buf2).2 = (cycleProcess id s.coll (s.cycleBatch buf buf2)).2 :=
+  ⟨rfl, rfl, rfl⟩
+
+/-- the second pass never lets a commit through -/
+theorem C03_split_no_commit (cb : Bool) (c1 c2 : Coll) (cm : List Nat) (l : List Cmd) :
+    commitsOf (splitSecond cb c1 c2 cm l).1 = [] ∧ commitsOf (splitSecond cb c1 c2 cm l).2 = [] := by
+  induction l with
+  | nil => exact ⟨rfl, rfl⟩
+  | cons x xs ih =>
+    cases x with
+    | start id => simpa [splitSecond, commitsOf] using ih
+    | commit id => simpa [splitSecond] using ih
+    | drop id =>
+      simp only [splitSecond]
+      split <;> simpa [commitsOf] using ih
+    | submit sp tok =>
+      simp only [splitSecond]
+      constructor
+      · split
+        · exact ih.1
+        · simpa [commitsOf] using ih.1
+      · split
+        · exact ih.2
+        · simpa [commitsOf] using ih.2
+
+/-- **D14 repair**: a cancel or a span set first seen in the second pass whose trace has not been started
+    (its start command is still in a channel) is not consumed by this cycle — it is carried -/
+theorem C03_second_pass_waits_for_start (cb : Bool) (c1 c2 : Coll) (cm : List Nat) (l : List Cmd) :
+    (∀ id, Cmd.drop id ∈ (splitSecond cb c1 c2 cm l).1 → c1.known id = true) ∧
+    (∀ sp tok, Cmd.submit sp tok ∈ (splitSecond cb c1 c2 cm l).1 → ∀ it ∈ tok, c2.known it.collectId = true) := by
+  induction l with
+  | nil => exact ⟨by simp [splitSecond], by simp [splitSecond]⟩
+  | cons x xs ih =>
+    cases x with
+    | start id =>
+      simp only [splitSecond]
+      exact ⟨fun i hi => ih.1 i (by simpa using hi), fun sp tok hi => ih.2 sp tok (by simpa using hi)⟩
+    | commit id => simpa [splitSecond] using ih
+    | drop id =>
+      simp only [splitSecond]
+      split
+      · rename_i hk
+        refine ⟨fun i hi => ?_, fun sp tok hi => ih.2 sp tok (by simpa using hi)⟩
+        simp only [List.mem_cons, Cmd.drop.injEq] at hi
+        rcases hi with rfl | hi
+        · exact hk
+        · exact ih.1 i hi
+      · exact ih
+    | submit sp tok =>
+      simp only [splitSecond]
+      split
+      · exact ih
+      · refine ⟨fun i hi => ih.1 i (by simpa using hi), fun sp' tok' hi => ?_⟩
+        simp only [List.mem_cons, Cmd.submit.injEq] at hi
+        rcases hi with ⟨rfl, rfl⟩ | hi
+        · intro it hit
+          have := (List.mem_filter.mp hit).2
+          simp only [carryItem, Bool.not_eq_true', Bool.or_eq_false_iff, Bool.not_eq_false'] at this
+          exact this.1
+        · exact ih.2 sp' tok' hi
 
 /-! non-vacuity: two retained receivers, the second pass picks up what arrived meanwhile -/
 example :
